@@ -495,6 +495,60 @@ pub fn special_programs() -> Vec<(&'static str, Prog, &'static str, bool)> {
         "object() 7 3 null|4 1 true true true\n",
         true,
     ));
+    // return pops the frame and nothing else: a callee may leave several values (or none of its own) for its caller
+    v.push((
+        "return-leaves-the-operand-stack-alone",
+        Prog {
+            consts: vec![
+                s("main"),
+                s("divmod"),
+                Const::Int(7),
+                Const::Int(2),
+                s("~ ~ ~\n"),
+                Const::Method { name: 1, arity: 1, locals: 0, code: vec![Ins::Lit(2), Ins::Lit(3), Ins::GetLocal(0), Ins::Return] },
+                s("peek"),
+                Const::Method { name: 6, arity: 0, locals: 0, code: vec![Ins::Return] },
+                Const::Int(5),
+                s("~|~\n"),
+                Const::Method { name: 0, arity: 0, locals: 0, code: vec![Ins::Lit(8), Ins::Call(1, 1), Ins::Print(4, 3), Ins::Drop, Ins::Lit(2), Ins::Lit(3), Ins::Call(6, 0), Ins::Print(9, 2)] },
+            ],
+            globals: vec![5, 7],
+            entry: 10,
+        },
+        "7 2 5\n7|2\n",
+        true,
+    ));
+    // what counts as true is decided by the value itself: every object (whatever its parent chain ends in), every
+    // array and every integer is, false and null are not
+    {
+        let mut consts = vec![s("main"), Const::Bool(false), Const::Null, Const::Int(0), Const::Class(vec![]), s("T"), s("F"), Const::Bool(true)];
+        let mut code: Vec<Ins> = Vec::new();
+        // (instructions that leave the tested value on the stack)
+        let tests: Vec<Vec<Ins>> = vec![
+            vec![Ins::Lit(1), Ins::Object(4)],
+            vec![Ins::Lit(2), Ins::Object(4)],
+            vec![Ins::Lit(3), Ins::Object(4)],
+            vec![Ins::Lit(1), Ins::Object(4), Ins::Object(4)],
+            vec![Ins::Lit(3), Ins::Lit(2), Ins::Array],
+            vec![Ins::Lit(3)],
+            vec![Ins::Lit(1)],
+            vec![Ins::Lit(2)],
+            vec![Ins::Lit(7)],
+            vec![Ins::Lit(3), Ins::Lit(1), Ins::Array, Ins::Object(4)],
+        ];
+        for (n, t) in tests.into_iter().enumerate() {
+            consts.push(s(&format!("yes{}", n)));
+            let ly = (consts.len() - 1) as u16;
+            consts.push(s(&format!("done{}", n)));
+            let ld = (consts.len() - 1) as u16;
+            code.extend(t);
+            code.extend(vec![Ins::Branch(ly), Ins::Print(6, 0), Ins::Drop, Ins::Goto(ld), Ins::Label(ly), Ins::Print(5, 0), Ins::Drop, Ins::Label(ld)]);
+        }
+        code.push(Ins::Lit(2));
+        consts.push(Const::Method { name: 0, arity: 0, locals: 0, code });
+        let entry = (consts.len() - 1) as u16;
+        v.push(("truthiness-of-objects-and-arrays", Prog { consts, globals: vec![], entry }, "TTTTTTFFTT", true));
+    }
     // instructions mean something when they execute, not when the file is loaded: a print whose format
     // has an undefined escape, a placeholder/argument mismatch, a call of an unknown function, a class
     // with duplicate members and a read of an unknown global are harmless in a method nobody calls
